@@ -143,6 +143,26 @@ impl Ref {
         }
     }
 
+    /// alphabetic width with loops unrolled (number of character positions of the expanded expression);
+    /// saturates at 1 << 20
+    pub fn expanded_width(&self) -> u64 {
+        let cap = 1u64 << 20;
+        let w = match self {
+            Ref::None | Ref::Eps => 0,
+            Ref::Range(..) => 1,
+            Ref::Cat(v) | Ref::Or(v) | Ref::And(v) => v.iter().map(|x| x.expanded_width()).sum(),
+            Ref::Not(x) => x.expanded_width(),
+            Ref::Loop(x, lo, hi) => {
+                let k = match hi {
+                    Some(h) => *h as u64,
+                    None => *lo as u64 + 1,
+                };
+                k.saturating_mul(x.expanded_width())
+            }
+        };
+        w.min(cap)
+    }
+
     pub fn size(&self) -> usize {
         match self {
             Ref::None | Ref::Eps | Ref::Range(..) => 1,
